@@ -261,6 +261,38 @@ Proof.
   split; [now apply H|]. apply H; [exact Dg|]. now rewrite (s_call_form g f).
 Qed.
 
+(* ---- after the repairs the guard of the item / -if / two-sequence families is nothing but "bounds in range,
+   characters representable, only keywords the function has" ------------------------------------------------ *)
+Definition bounds_only (f : fname) : bool :=
+  match f with
+  | FFind | FFindIf | FPosition | FPositionIf | FCount | FCountIf
+  | FRemove | FRemoveIf | FDelete | FDeleteIf
+  | FSubstitute | FSubstituteIf | FNsubstitute | FNsubstituteIf
+  | FSearch | FSubseq | FReplace | FReverse | FNreverse | FMap | FConcatenate => true
+  | _ => false
+  end.
+Lemma guard_is_bounds : forall c, bounds_only (c_fn c) = true ->
+  in_domain c = bounds_ok c && seq_ok (c_seq c) && seq_ok (c_seq2 c) && keywords_ok c &&
+                match c_fn c with FSearch | FReplace => bounds2_ok c | _ => true end.
+Proof. intros c H. unfold in_domain. destruct (c_fn c); try discriminate H; reflexivity. Qed.
+(* so for these functions: every in-range call with any combination of :start :end :key :test :test-not
+   :count :from-end (:start2 :end2) returns exactly the value of the specification *)
+Theorem in_range_calls_meet_spec : forall c, bounds_only (c_fn c) = true ->
+  bounds_ok c = true -> seq_ok (c_seq c) = true -> seq_ok (c_seq2 c) = true -> keywords_ok c = true ->
+  match c_fn c with FSearch | FReplace => bounds2_ok c | _ => true end = true ->
+  m_call c = s_call c /\ exists r, s_call c = Some r.
+Proof.
+  intros c H B S1 S2 K B2.
+  assert (in_domain c = true) as Hd by (rewrite guard_is_bounds by exact H; now rewrite B, S1, S2, K, B2).
+  assert (has_model (c_fn c) = true) as Hm by (destruct (c_fn c); try discriminate H; reflexivity).
+  destruct (model_meets_spec c Hm Hd) as [r [Hr Ho]].
+  assert (exists s, s_call c = Some s) as [s Hs].
+  { unfold s_call. destruct (c_fn c); try discriminate H; eauto. }
+  split; [|eauto]. rewrite Hr, Hs. f_equal.
+  unfold spec_ok in Ho. rewrite Hs in Ho.
+  destruct (c_fn c); try discriminate H; symmetry; now apply res_eqb_eq.
+Qed.
+
 (* ---- statements packaged for Properties.v ------------------------------------------------------------------- *)
 Lemma stable_sort_exists_unique : forall lt k, swo lt -> forall xs,
   stable_spec lt k xs (s_isort lt k xs) /\ forall ys, stable_spec lt k xs ys -> ys = s_isort lt k xs.
